@@ -28,7 +28,10 @@ def tuple_shape(s):
 def make_event(case):
     from mathy_core.tree import STOP
     from mathy_core import expressions as E
-    root = build(case)
+    try:
+        root = build(case)
+    except BaseException as e:  # noqa
+        return {"typ": "visit", "cls": "btn", "root": 0, "orders": {}, "h": {"n": 0, "l": [], "r": [], "p": []}, "setup_exc": type(e).__name__}
     objs = project.ObjTable()
     project.absorb(objs, [root])
     if case["cls"] == "expr" and case.get("dupids"):
@@ -176,6 +179,10 @@ def run(ctx, cases=None):
     from multiprocessing import Pool
     with Pool(16) as pool:
         events = pool.map(make_event, cases, chunksize=50)
+    broken = [(k, e) for k, e in enumerate(events) if e.get("setup_exc")]
+    keep = [k for k, e in enumerate(events) if not e.get("setup_exc")]
+    allcases, cases = cases, [cases[k] for k in keep]
+    events = [events[k] for k in keep]
     fails, st = tlc.validate_sharded("TraceHeap", "TraceHeap.cfg", events, ctx.work, shard_size=max(100, len(events) // 32 + 1))
     res.states += st["distinct"]; res.transitions += st["generated"]
     res.traces = len(events)
@@ -186,6 +193,9 @@ def run(ctx, cases=None):
     res.samples = [{"heap": {k: e0["h"][k] for k in ("n", "l", "r", "p")}, "inorder_calls": e0["orders"]["in"]["full"],
                     "stop_at_2": e0["orders"]["in"]["stops"][1] if len(e0["orders"]["in"]["stops"]) > 1 else None}]
     res.extra["validator"] = st
+    for k, e in broken:
+        res.violations.append(Violation("C14|constructing the tree raised %s|%s" % (e["setup_exc"], allcases[k]["cls"]),
+                                        "building %s shape %s raised %s" % (allcases[k]["cls"], allcases[k]["shape"], e["setup_exc"]), allcases[k], ["setup"]))
     for eid, clauses in sorted(fails.items()):
         ev = events[eid - 1]
         res.violations.append(Violation(sig(ev, clauses), "traversal/look-up on %s shape %s fails %s" % (cases[eid - 1]["cls"], cases[eid - 1]["shape"], clauses), cases[eid - 1], clauses))
